@@ -17,7 +17,7 @@ def judge(ctx, cases):
 
 def main(ctx):
     jpfam.design(ctx)
-    cases = jpfam.gen_cases(ctx, nrand=2000 if ctx.quick else 60000, nodesc_last=True, lite=ctx.quick)
+    cases = jpfam.gen_cases(ctx, nrand=2000 if ctx.quick else 40000, nodesc_last=True, lite=ctx.quick)
     recs = judge(ctx, cases)
     for r in recs:
         ctx.add(r["api"], r["kind"], r["locus"], r["witness"], case=r["case"], detail=r.get("detail"))
